@@ -1,3 +1,38 @@
-(* C19 — statements are added when the corresponding facts file lands *)
-From SV Require Import Bytes Text.
-Theorem C19_placeholder : True. Proof. exact I. Qed.
+(* C19 — what you put into a filter is what you read back.
+
+   Proved here (factory/TextFacts.v over factory/Text.v): the text-level core of the read-back path.
+   Conditions built with lists are stored as the rendered list [quote_list vs] and read back with
+   tools.to_list ([to_list]: drop the brackets, split at every comma, strip the quotes).  That inverts
+   the quoting exactly on values free of commas, double quotes and backslashes (C19_to_list_inverts)
+   and provably not beyond (C19_comma_refuted, C19_quote_refuted: the known findings of C19).
+   The per-test args_as_tuple code, the negation folding of get_filter_conditions and the reload path
+   are exercised on the implementation for all supported forms (created by addfilter, by updatefilter on
+   an enabled and on a disabled filter; read back on the original set, while disabled, after enabling
+   again, and on the reloaded set). *)
+From Coq Require Import String.
+From Coq Require Import List NArith Bool Arith.
+From SV Require Import Bytes Lexer Text TextFacts.
+Import ListNotations.
+Local Open Scope nat_scope.
+
+(* reading a rendered list back gives the values, for values free of commas, quotes and backslashes *)
+Theorem C19_to_list_inverts :
+  forall vs : list bytes,
+  vs <> [] -> Forall (fun v : bytes => plain v = true) vs -> to_list (quote_list vs) = vs.
+Proof. exact TextFacts.to_list_quote_list. Qed.
+Print Assumptions C19_to_list_inverts.
+
+(* a single quoted value is read back by stripping the quotes *)
+Theorem C19_single_value :
+  forall v : bytes, plain v = true -> strip_dq (quote v) = v.
+Proof. exact TextFacts.strip_dq_quote_plain. Qed.
+Print Assumptions C19_single_value.
+
+Example C19_comma_refuted : to_list (quote_list [bs "a,b"]) = [bs "a"; bs "b"].
+Proof. vm_compute. reflexivity. Qed.
+
+Example C19_quote_refuted : to_list (quote_list [bs "say ""hi"""]) <> [bs "say ""hi"""].
+Proof. vm_compute. discriminate. Qed.
+
+Example C19_blanks_survive : to_list (quote_list [bs " free "; bs "winner "]) = [bs " free "; bs "winner "].
+Proof. vm_compute. reflexivity. Qed.
